@@ -90,15 +90,21 @@ def log_token(events):
     return "|".join(i["init"] + ":" + ";".join(c.token() for c in i["calls"] if c.rc is not None) for i in inst)
 
 
-def run_logged(exe, lines, timeout_case=10, data=True, extra_env=None, preload=True):
+def run_logged(exe, lines, timeout_case=10, data=True, extra_env=None, preload=True, max_bad=6):
     """Run a harness over protocol lines under the interposer.  A case that
     crashes or hangs the harness gets the result 'CRASH <status>' / 'HANG' and
-    the run resumes with the next case.  Returns (results, events_per_case)."""
+    the run resumes with the next case; after max_bad such cases the remaining
+    ones are not run (result 'SKIPPED').  Returns (results, events_per_case)."""
     results = []
     events = []
     pos = 0
+    bad = 0
     logp = os.path.join(scratch_dir(), "vcodec-%d.log" % os.getpid())
     while pos < len(lines):
+        if bad >= max_bad:
+            results += ["SKIPPED"] * (len(lines) - pos)
+            events += [[] for _ in range(len(lines) - pos)]
+            break
         if os.path.exists(logp):
             os.unlink(logp)
         env = dict(os.environ)
@@ -106,7 +112,7 @@ def run_logged(exe, lines, timeout_case=10, data=True, extra_env=None, preload=T
             env["LD_PRELOAD"] = hx_bin("libvcodec.so")
             env["VCODEC_LOG"] = logp
             env["VCODEC_DATA"] = "1" if data else "0"
-            env["VCODEC_MAX_LINES"] = "400000"
+            env["VCODEC_MAX_LINES"] = "120000"
         env["HX_TMPDIR"] = scratch_dir()
         env["HX_CASE_TIMEOUT"] = str(timeout_case)
         # uninitialised heap memory must not look like zeros by accident
@@ -139,6 +145,7 @@ def run_logged(exe, lines, timeout_case=10, data=True, extra_env=None, preload=T
             results.append("HANG" if hang or rc == "timeout" else "CRASH %s" % rc)
             events += (ev + [[] for _ in range(done + 1)])[:done + 1]
             pos += done + 1
+            bad += 1
     if os.path.exists(logp):
         os.unlink(logp)
     return results, events
